@@ -16,6 +16,12 @@ package httpserver
 // exactly one covered element "in flight". The validator-side clock is stamped
 // by taps directly before the Validator and when the handler returns.
 //
+// In a quarter of the runs with two or more clients all clients start their
+// first requests at the same instant ("burst"), and the scheduler may switch
+// between the statements of Validator.Handle and of the signer (check.json
+// stmt_gates): several different requests are then inside the same Validator
+// generation at once, each judged by its own credentials.
+//
 // An "admin" task performs 0-3 administrative events at drawn instants: a new
 // pipeline generation through the real Pipeline.Inherit (which closes the
 // previous generation; the Validator spec is unchanged, or a signature secret
@@ -36,6 +42,11 @@ package httpserver
 //   * let through => the payload that would be forwarded equals the bytes sent.
 //
 // Leniency decisions (both answers accepted / not generated):
+//   * NumericDate claims are written as integers, decimal fractions (quarters of
+//     a second) or in exponent notation (RFC 7519: any JSON number); the reference
+//     compares the validator clock with the exact value. With a fractional nbf
+//     the second before it accepts both answers (nbf-1s < now <= nbf), the same
+//     one-second granularity that is granted at exp.
 //   * JWT: exp <= now < exp+1s both answers; now == nbf both; a token whose iat is
 //     in the validator's future (issuer clock ahead) both answers (RFC 7519 gives
 //     iat no validity meaning, the library rejects it).
@@ -213,6 +224,12 @@ type c06Op struct {
 	OtherCookies bool `json:"other_cookies,omitempty"`
 	// JWTExtra: registered claims iss/aud/jti/sub and a kid header member are present
 	JWTExtra bool `json:"jwt_extra,omitempty"`
+	// NumForm: how the issuer writes NumericDate claims: "" integers, "dec" decimal
+	// fractions, "sci" exponent notation; ExpQ/NbfQ/IatQ: quarters of a second added
+	NumForm string `json:"num_form,omitempty"`
+	ExpQ    int    `json:"exp_q,omitempty"`
+	NbfQ    int    `json:"nbf_q,omitempty"`
+	IatQ    int    `json:"iat_q,omitempty"`
 	// LitDocPrefix (config without signingKeyPrefix): the client derives the key with the documented default "ME" instead of ""
 	LitDocPrefix bool `json:"lit_doc_prefix,omitempty"`
 
@@ -783,13 +800,36 @@ func c06Gen(rng *sim.Rand, tier string) interface{} {
 		}
 		sc.Clients = append(sc.Clients, cl)
 	}
+	// burst: every client sends its requests back to back from the same instant,
+	// so that several different requests are inside the Validator together
+	if nc >= 2 && rng.Bool(0.25) {
+		for ci := range sc.Clients {
+			for oi := range sc.Clients[ci].Ops {
+				op := &sc.Clients[ci].Ops[oi]
+				if oi < 2 {
+					op.GapUs = int64(rng.Pick(0, 0, 0, 1))
+					if op.Target != "" {
+						op.Target, op.TargetOffNs = "", 0
+					}
+				}
+			}
+		}
+	}
 	// one issuer per scenario: all its tokens have the same set of claims (so
 	// that the same token string can reach the Validator more than once)
 	jwtExtra := rng.Bool(0.3)
+	numForm := rng.PickStr("", "", "", "", "dec", "dec", "sci")
 	for ci := range sc.Clients {
 		for oi := range sc.Clients[ci].Ops {
-			sc.Clients[ci].Ops[oi].Follow = rng.Bool(0.7)
-			sc.Clients[ci].Ops[oi].JWTExtra = jwtExtra && sc.Clients[ci].Ops[oi].JWTMode != ""
+			op := &sc.Clients[ci].Ops[oi]
+			op.Follow = rng.Bool(0.7)
+			op.JWTExtra = jwtExtra && op.JWTMode != ""
+			if op.JWTMode != "" {
+				op.NumForm = numForm
+				if numForm != "" {
+					op.ExpQ, op.NbfQ, op.IatQ = rng.Pick(0, 1, 2, 3), rng.Pick(0, 1, 2, 3), rng.Pick(0, 1, 2, 3)
+				}
+			}
 		}
 	}
 	c06GenEvents(rng, sc)
@@ -1022,6 +1062,8 @@ type c06Info struct {
 	mut          string // the mutation that was really applied ("" if not applicable)
 	exp, nbf     int64  // unix seconds (valid if the op has them)
 	iat          int64
+	expQ, nbfQ   int // quarters of a second on top of the whole part (non-integer NumericDate)
+	iatQ         int
 	sigDate      int64 // unix seconds of the signature's date
 	signedLen    int   // length of the body the signature was computed over
 	signedCL     bool  // Content-Length was among the signed headers
@@ -1030,6 +1072,43 @@ type c06Info struct {
 	wire         *c06Wire
 	issuedAt     time.Time
 	eff          c06Op // the request as really issued (secrets/password followed to the configuration in force)
+}
+
+func (i *c06Info) expNs() int64 { return i.exp*c06S + int64(i.expQ)*(c06S/4) }
+func (i *c06Info) nbfNs() int64 { return i.nbf*c06S + int64(i.nbfQ)*(c06S/4) }
+func (i *c06Info) iatNs() int64 { return i.iat*c06S + int64(i.iatQ)*(c06S/4) }
+
+func c06Quarter(form string, q int) int {
+	if form == "" || q < 0 || q > 3 {
+		return 0
+	}
+	return q
+}
+
+// c06NumDate writes a NumericDate (RFC 7519: "a JSON numeric value", seconds
+// since the epoch, non-integer values allowed): as an integer, as a decimal
+// fraction (what time.time() of Python or a float timestamp gives) or in
+// exponent notation (what several JSON encoders emit for floats).
+func c06NumDate(sec int64, q int, form string) string {
+	frac := []string{"", "25", "5", "75"}[q&3]
+	switch form {
+	case "dec":
+		if frac == "" {
+			return fmt.Sprintf("%d.0", sec)
+		}
+		return fmt.Sprintf("%d.%s", sec, frac)
+	case "sci":
+		if sec <= 0 {
+			return fmt.Sprint(sec)
+		}
+		digits := strings.TrimRight(fmt.Sprint(sec)+frac, "0")
+		e := len(fmt.Sprint(sec)) - 1
+		if len(digits) == 1 {
+			return fmt.Sprintf("%se%d", digits, e)
+		}
+		return fmt.Sprintf("%s.%se%d", digits[:1], digits[1:], e)
+	}
+	return fmt.Sprint(sec)
 }
 
 func c06FlipB64(seg string, n int) string {
@@ -1130,16 +1209,20 @@ func (c *c06Chain) issue(id string, op0 *c06Op) *c06Info {
 		claims := [][2]string{{"sub", `"c06"`}}
 		is := issuer.Unix()
 		if op.HasIat {
-			info.iat = is + op.IatIn
-			claims = append(claims, [2]string{"iat", fmt.Sprint(info.iat)})
+			info.iat, info.iatQ = is+op.IatIn, c06Quarter(op.NumForm, op.IatQ)
+			if info.iatQ > 0 && op.IatIn >= 0 {
+				// an issue time is never later than the issuer's own clock
+				info.iat--
+			}
+			claims = append(claims, [2]string{"iat", c06NumDate(info.iat, info.iatQ, op.NumForm)})
 		}
 		if op.HasNbf {
-			info.nbf = is + op.NbfIn
-			claims = append(claims, [2]string{"nbf", fmt.Sprint(info.nbf)})
+			info.nbf, info.nbfQ = is+op.NbfIn, c06Quarter(op.NumForm, op.NbfQ)
+			claims = append(claims, [2]string{"nbf", c06NumDate(info.nbf, info.nbfQ, op.NumForm)})
 		}
 		if op.HasExp {
-			info.exp = is + op.ExpIn
-			claims = append(claims, [2]string{"exp", fmt.Sprint(info.exp)})
+			info.exp, info.expQ = is+op.ExpIn, c06Quarter(op.NumForm, op.ExpQ)
+			claims = append(claims, [2]string{"exp", c06NumDate(info.exp, info.expQ, op.NumForm)})
 		}
 		alg, signAlg, extraHead := op.JWTAlg, op.JWTAlg, ""
 		if op.Mut == "jwt-none" {
@@ -1727,15 +1810,19 @@ func (c *c06Chain) judgeJWT(op *c06Op, info *c06Info, a, b int64) c06Judgement {
 	}
 	w := c06Open()
 	if op.HasExp {
-		w.sureTo = info.exp*c06S - 1
-		w.possTo = (info.exp+1)*c06S - 1
+		w.sureTo = info.expNs() - 1
+		w.possTo = info.expNs() + c06S - 1
 	}
 	if op.HasNbf {
-		w.possFrom = info.nbf * c06S
-		w.sureFrom = info.nbf*c06S + 1
+		w.possFrom = info.nbfNs()
+		w.sureFrom = info.nbfNs() + 1
+		if info.nbfQ != 0 {
+			// the same one-second granularity that is granted at exp
+			w.possFrom = info.nbfNs() - c06S + 1
+		}
 	}
 	if op.HasIat {
-		w.sureFrom = max64(w.sureFrom, info.iat*c06S)
+		w.sureFrom = max64(w.sureFrom, info.iatNs())
 	}
 	j := w.judge(a, b, "jwt")
 	if j.v == c06Accept && info.mut == "jwt-bearer-lower" {
@@ -1939,8 +2026,8 @@ func (c *c06Chain) describe(op *c06Op, info *c06Info) string {
 		}
 		hs = append(hs, kv[0]+": "+v)
 	}
-	return fmt.Sprintf("[validator %s srvMax=%d] [request %s %s body=%d(signed over %d) chunked=%v | %s] [issuer skew=%dms mut=%q target=%s%+dns jwt(exp=%d nbf=%d iat=%d) sigdate=%d]",
-		strings.Join(m, "+"), cfg.SrvMax, w.method, target, len(w.body), info.signedLen, w.chunked, strings.Join(hs, " | "), op.SkewMs, info.mut, op.Target, op.TargetOffNs, info.exp, info.nbf, info.iat, info.sigDate)
+	return fmt.Sprintf("[validator %s srvMax=%d] [request %s %s body=%d(signed over %d) chunked=%v | %s] [issuer skew=%dms mut=%q target=%s%+dns jwt(exp=%.2f nbf=%.2f iat=%.2f form=%q) sigdate=%d]",
+		strings.Join(m, "+"), cfg.SrvMax, w.method, target, len(w.body), info.signedLen, w.chunked, strings.Join(hs, " | "), op.SkewMs, info.mut, op.Target, op.TargetOffNs, float64(info.expNs())/1e9, float64(info.nbfNs())/1e9, float64(info.iatNs())/1e9, op.NumForm, info.sigDate)
 }
 
 var c06RewriteRe = regexp.MustCompile(`^/api/(.*)$`)
@@ -2040,7 +2127,7 @@ func (c *c06Chain) evaluate(id string, op *c06Op, info *c06Info, rec *c06Rec, re
 
 	// --- what happened
 	accepted = rec.passed > 0
-	at := fmt.Sprintf("validator clock in [%s, %s] (unix %d.%09d)", rec.tA.UTC().Format("15:04:05.000000000"), rec.tEnd.UTC().Format("15:04:05.000000000"), a/c06S, a%c06S)
+	at := fmt.Sprintf("validator clock in [%s, %s] (unix %d.%09d); %d other request(s) were inside the Validator at the same time", rec.tA.UTC().Format("15:04:05.000000000"), rec.tEnd.UTC().Format("15:04:05.000000000"), a/c06S, a%c06S, rec.overlap)
 	if accepted {
 		wantBody := "c06-let-through"
 		if info.wire.method == "HEAD" {
@@ -2165,9 +2252,9 @@ func c06Exec(r *sim.Run, sci interface{}) {
 				ok := false
 				switch op.Target {
 				case "exp":
-					boundary, ok = info.exp*c06S, op.JWTMode != "" && op.HasExp
+					boundary, ok = info.expNs(), op.JWTMode != "" && op.HasExp
 				case "nbf":
-					boundary, ok = info.nbf*c06S, op.JWTMode != "" && op.HasNbf
+					boundary, ok = info.nbfNs(), op.JWTMode != "" && op.HasNbf
 				case "ttlhi":
 					if cfg.Sig != nil && op.SigMode != "" {
 						boundary, ok = info.sigDate*c06S+cfg.Sig.ttlNs(), cfg.Sig.TTLs > 0
@@ -2319,7 +2406,7 @@ func (c *c06Chain) probes(op *c06Op, info *c06Info, rec *c06Rec, v int, acc bool
 	if rec.tA.Equal(rec.tEnd) && info.mut == "" {
 		// exactly-on-boundary instants really reached (validator clock did not move during validation)
 		if op.JWTMode != "" && op.HasExp {
-			switch a - info.exp*c06S {
+			switch a - info.expNs() {
 			case -1:
 				r.Probe("c06.exact.now_is_exp_minus_1ns")
 			case 0:
@@ -2331,7 +2418,7 @@ func (c *c06Chain) probes(op *c06Op, info *c06Info, rec *c06Rec, v int, acc bool
 			}
 		}
 		if op.JWTMode != "" && op.HasNbf {
-			switch a - info.nbf*c06S {
+			switch a - info.nbfNs() {
 			case -1:
 				r.Probe("c06.exact.now_is_nbf_minus_1ns")
 			case 0:
@@ -2368,7 +2455,7 @@ func (c *c06Chain) probes(op *c06Op, info *c06Info, rec *c06Rec, v int, acc bool
 		}
 	}
 	if op.JWTMode != "" && cfg.JWT != nil && op.HasExp && v != c06Either {
-		switch d := a - info.exp*c06S; {
+		switch d := a - info.expNs(); {
 		case d < 0 && d >= -c06S && acc:
 			r.Probe("c06.jwt.accepted_within_1s_before_exp")
 		case d >= c06S && d < 2*c06S+1 && !acc:
@@ -2376,7 +2463,7 @@ func (c *c06Chain) probes(op *c06Op, info *c06Info, rec *c06Rec, v int, acc bool
 		}
 	}
 	if op.JWTMode != "" && cfg.JWT != nil && op.HasNbf && v != c06Either {
-		switch d := a - info.nbf*c06S; {
+		switch d := a - info.nbfNs(); {
 		case d > 0 && d <= c06S && acc:
 			r.Probe("c06.jwt.accepted_within_1s_after_nbf")
 		case d < 0 && d >= -c06S && !acc:
@@ -2472,6 +2559,12 @@ func (c *c06Chain) probesWide(op *c06Op, info *c06Info, rec *c06Rec, v int, acc 
 	if info.wire.method == "HEAD" {
 		r.Probe("c06.method.head_" + out)
 	}
+	if rec.overlap > 0 {
+		r.Probe("c06.conc.requests_overlap_inside_validator")
+		if cfg.Sig != nil && op.SigMode != "" {
+			r.Probe("c06.conc.signed_requests_overlap_inside_validator_" + out)
+		}
+	}
 	if strings.HasPrefix(op.Host, "[") && acc {
 		r.Probe("c06.host.ipv6_literal_accepted")
 	}
@@ -2490,6 +2583,11 @@ func (c *c06Chain) probesWide(op *c06Op, info *c06Info, rec *c06Rec, v int, acc 
 			}
 		}
 	}
+	if cfg.JWT != nil && op.JWTMode != "" && op.NumForm != "" && v == c06Reject && !acc && info.mut == "" {
+		if info.expQ+info.nbfQ > 0 || op.NumForm == "sci" {
+			r.Probe("c06.jwt.non_integer_or_exponent_numericdate_token_rejected_by_time")
+		}
+	}
 	if cfg.JWT != nil && info.mut == "jwt-bearer-lower" {
 		r.Probe("c06.jwt.bearer_scheme_variant_" + out)
 	}
@@ -2505,6 +2603,9 @@ func (c *c06Chain) probesWide(op *c06Op, info *c06Info, rec *c06Rec, v int, acc 
 		}
 		if info.otherCookies {
 			r.Probe("c06.jwt.bearer_accepted_beside_unrelated_cookies")
+		}
+		if op.NumForm != "" {
+			r.Probe("c06.jwt.numericdate_" + op.NumForm + "_accepted")
 		}
 	}
 	if s := cfg.Sig; s != nil && op.SigMode != "" {
@@ -2743,7 +2844,8 @@ func TestVerifC06(t *testing.T) {
 		Stub: []string{"network: simnet", "clients: raw HTTP/1.1 writer + strict response parser", "issuer: own JWT writer, own Signature-V4 signer, own Basic encoder (harness)",
 			"basicAuth credential store: clustertest.MockedCluster (ETCD mode; FILE mode needs inotify and is not exercised); its syncer delivers only the keys under the prefix the watcher asked for", "recording taps before/after the Validator (harness filter kind C06Tap)"},
 		Assumptions: []string{"edges accept both answers: exp<=now<exp+1s, now==nbf, iat in the validator's future, |now-date|==ttl, now-date==expires, and any edge crossed while the request was inside the handler",
-			"rejection status may be 400 or 401", "queries contain no ';', paths no dot/empty segments or lower-case escapes; only queries whose order is the same before and after URI-encoding",
+			"rejection status may be 400 or 401", "NumericDate claims may be integers, decimal fractions or exponent notation; with a fractional nbf the second before it accepts both answers",
+			"statement gates inside validator.go and signer.go (a quarter of the runs): requests of different content overlap inside one Validator generation; each is judged by its own credentials and by the clock interval [tap before the Validator, end of the handler]", "queries contain no ';', paths no dot/empty segments or lower-case escapes; only queries whose order is the same before and after URI-encoding",
 			"host and the date header are always signed; Authorization/User-Agent never; Content-Length when the client signs every header", "methods needing the same Authorization header are not combined (signature+basicAuth only as presigned URL + Basic header, both answers accepted when valid for both); oauth2 is not exercised",
 			"a space in the query is canonicalised as %20 (Signature V4); the wire encoding of the query never matters",
 			"both answers (probes only): request signed with the spec's accessKeyId/accessKeySecret pair; literal without signingKeyPrefix; scheme word in another case or followed by two spaces, unpadded base64; UNSIGNED-PAYLOAD signed over an empty body; signed path rewritten by the server's rewriteTarget; generation whose first read of the credential store failed",
